@@ -581,6 +581,26 @@ def s_plan_ms(policies, seed=0, max_n=2):
                                 wl, clus, pf, seed, tape=[],
                                 tag=f"S-plan-ms n={n} e={edges} m={combo} r={rk} "
                                     f"sl={sl} p={pk}")
+    # three independent tasks: one that only runs on the GPU, one that only runs on the
+    # CPU and one with a menu -- with both units busy the menu task is planned for the
+    # future, and the arrival of the second instance makes the planner revise that plan
+    names = names_for(3, seed)
+    for g_rt, c_rt in itertools.product((2, 4), (2, 3)):
+        for menu in (menus[0], menus[2], [strat(2, GPU=1), strat(3, CPU=1)]):
+            for order in itertools.permutations(range(3)):
+                if order[0] > order[1] and order[1] > order[2]:
+                    continue
+                base = [[strat(g_rt, GPU=1)], [strat(c_rt, CPU=1)], menu]
+                strategies = [base[o] for o in order]
+                for rk in ("two@1",):
+                    for sl in ((50, 50), (100, 100), (200, 200)):
+                        wl = workload_from_dag(names, (), strategies, RELEASES[rk], sl)
+                        for pk, pf in policies.items():
+                            yield mk_world(
+                                wl, clus, pf, seed, tape=[],
+                                tag=f"S-plan-ms n=3 g={g_rt} c={c_rt} "
+                                    f"menu={[x['runtime'] for x in menu]} o={order} "
+                                    f"sl={sl} p={pk}")
 
 
 def count(gen):
